@@ -62,8 +62,10 @@ fn parse_codes(s: &str) -> Option<Vec<Vec<u8>>> {
 }
 
 fn dump(cmap: &CMap) -> String {
-    let name = cmap.name.as_ref().map(|n| hb(n.as_bytes())).unwrap_or("~".into());
-    let inh = cmap.inherited_predefined.as_ref().map(|n| hb(n.as_bytes())).unwrap_or("~".into());
+    // names are built from the text's BYTES, one char per byte (chars 0..255): dump the char codes
+    let l1 = |n: &String| hb(&n.chars().map(|c| c as u32 as u8).collect::<Vec<u8>>());
+    let name = cmap.name.as_ref().map(l1).unwrap_or("~".into());
+    let inh = cmap.inherited_predefined.as_ref().map(l1).unwrap_or("~".into());
     let cs: Vec<String> = cmap.codespace_ranges.iter().map(|r| format!("{}-{}", hb(&r.start), hb(&r.end))).collect();
     let ms: Vec<String> = cmap
         .mappings
@@ -427,6 +429,36 @@ fn damage(text: &str, rng: &mut Rng) -> Vec<u8> {
     b
 }
 
+/// non-ASCII damage: whole UTF-8 characters (the text stays UTF-8; the tokenizer then sees their
+/// bytes one by one: `é` = C3 A9, NBSP = C2 A0 and NEL = C2 85 contain a Latin-1 white-space char,
+/// `€` = E2 82 AC) inserted at random places or right inside a hex string, at odd and even offsets;
+/// now and then a lone byte >= 0x80 (not UTF-8: `CMap::parse` must answer `Err`).
+fn damage_nonascii(text: &str, rng: &mut Rng) -> Vec<u8> {
+    let mut b = text.as_bytes().to_vec();
+    let chars: [&[u8]; 7] = [b"\xC3\xA9", b"\xC2\xA0", b"\xC2\x85", b"\xE2\x82\xAC", b"\xC3\xBF", b"\xF0\x9F\x98\x80", b"\xC2\x80"];
+    for _ in 0..rng.range(1, 3) {
+        if b.is_empty() {
+            break;
+        }
+        // positions just after a `<` or one/two digits into a hex string are the interesting ones
+        let lts: Vec<usize> = b.iter().enumerate().filter(|(_, c)| **c == b'<').map(|(i, _)| i).collect();
+        let at = if !lts.is_empty() && rng.chance(2, 3) {
+            (*rng.pick(&lts) + 1 + rng.below(4) as usize).min(b.len())
+        } else {
+            rng.below(b.len() as u64 + 1) as usize
+        };
+        // never split an earlier insertion
+        if at < b.len() && (b[at] & 0xC0) == 0x80 {
+            continue;
+        }
+        let ins: Vec<u8> = if rng.chance(1, 12) { vec![*rng.pick(&[0x80u8, 0xA9, 0xC3, 0xFF])] } else { rng.pick(&chars).to_vec() };
+        for (k, x) in ins.iter().enumerate() {
+            b.insert(at + k, *x);
+        }
+    }
+    b
+}
+
 const FREEFORM: &[&str] = &[
     "/Identity-H usecmap\n1 begincodespacerange <0000> <FFFF> endcodespacerange\n1 beginbfchar <0041> <0061> endbfchar",
     "/Identity-V usecmap 1 beginbfchar <0041> <0061> endbfchar",
@@ -441,6 +473,10 @@ const FREEFORM: &[&str] = &[
     "<< /A <41> >> ] ) > 12abc -5 -x 99999999999999999999 /N1/N2 [ <41> <42 ] 1 beginbfchar <41> <0061> endbfchar",
     "1 beginbfrange <0000> <FFFF> <0000> endbfrange 1 begincodespacerange <0000> <FFFF> endcodespacerange",
     "1 beginbfrange <00> <FF> <00FF> <0100> <01FF> <D7FF> endbfrange",
+    // non-ASCII characters: inside hex strings at odd / even offsets, as white space (NBSP, NEL), in names
+    "1 beginbfchar <4\u{e9}4> <0041> <41> <0061> <\u{e9}> <0062> <42\u{e9}> <0063> <4\u{a0}2> <0064> <\u{85}43> <0065> endbfchar",
+    "/CMapName /N\u{e9}\u{20ac} def /Identit\u{e9} usecmap 1 beginbfrange <41> <42> [<00\u{e9}61> <0062>] <4\u{20ac}> <44> <0070> endbfrange",
+    "1 begincodespacerange <00> <\u{ff}F> <00> <FF> endcodespacerange kw\u{e9} 1 beginbfchar <41> <0061> endbfchar",
 ];
 
 fn gen(rng: &mut Rng, tier: Tier) -> Vec<Case> {
@@ -472,8 +508,11 @@ fn gen(rng: &mut Rng, tier: Tier) -> Vec<Case> {
                 let g = gen_struct(rng);
                 let text = render(&g, rng);
                 let codes = probe_codes(&g, rng);
-                let d = damage(&text, rng);
-                if d.iter().all(|b| *b < 0x80) {
+                if rng.chance(1, 3) {
+                    let d = damage_nonascii(&text, rng);
+                    v.push(Case::new(format!("cmap {} - {}", hex(&d), codes_str(&codes)), "cmap damaged nonascii nt"));
+                } else {
+                    let d = damage(&text, rng);
                     v.push(Case::new(format!("cmap {} - {}", hex(&d), codes_str(&codes)), "cmap damaged nt"));
                 }
             }
